@@ -218,6 +218,8 @@ func (e *Exec) execInstr(f *frame, in ssa.Instruction, h *Heap, g string) (*Heap
 				e.addObligation(f, "valinv", vi.c, fmt.Sprintf("valinv.%s@%s%d", labelOr(vi.c, "inv"), f.path, e.callOrd["valinv:"+vi.c.Label]), g, t, in.Pos())
 			}
 		}
+		e.noteWrite(dc, m.T)
+		e.noteWrite(vc, m.T)
 		h.m[dc] = e.nameIfBig("h", e.compSort[dc], store(e.hget(h, dc), m.T, store(sel(e.hget(h, dc), m.T), k.T, "true")))
 		h.m[vc] = e.nameIfBig("h", e.compSort[vc], store(e.hget(h, vc), m.T, store(sel(e.hget(h, vc), m.T), k.T, v.T)))
 	case *ssa.Lookup:
